@@ -225,12 +225,25 @@ func (g *ExprGen) Gsub(tp uint16) *gtab.LookupTable {
 		}
 		lt.Subtables = append(lt.Subtables, s)
 	case 4:
+		if t.Chance(1, 8) && g.N > 12 {
+			// "ligatures" of one glyph each over a run of glyphs (the
+			// grammar accepts GSUB4: A -> D)
+			n := t.Range(3, 5)
+			start, to := t.Draw(g.N-n), t.Draw(g.N-n)
+			s := &gtab.Gsub4_1{Cov: coverage.Table{}}
+			for i := 0; i < n; i++ {
+				s.Cov[glyph.ID(start+i)] = i
+				s.Repl = append(s.Repl, []gtab.Ligature{{Out: glyph.ID(to + i)}})
+			}
+			lt.Subtables = append(lt.Subtables, s)
+			break
+		}
 		gg := g.set(6)
 		s := &gtab.Gsub4_1{Cov: covTable(gg)}
 		for range gg {
 			var ligs []gtab.Ligature
 			for i := t.Range(1, 3); i > 0; i-- {
-				ligs = append(ligs, gtab.Ligature{In: g.list(1, 3), Out: g.gid()})
+				ligs = append(ligs, gtab.Ligature{In: g.list(0, 3), Out: g.gid()})
 			}
 			s.Repl = append(s.Repl, ligs)
 		}
